@@ -20,12 +20,12 @@ Init == l = 1 /\ N = 0 /\ out = <<>>
 TReset == /\ Ev.e = "Reset" /\ N' = Ev.n /\ out' = <<>>
 
 TRelease ==
-    /\ Ev.e = "Release" /\ out # <<>>
+    /\ Ev.e = "Release" /\ out # <<>> /\ Ev.valid = 1
     /\ Ev.off = out[1].lo /\ Ev.cap = out[1].hi - out[1].lo
     /\ out' = Tail(out) /\ UNCHANGED N
 
 TAcquire ==
-    /\ Ev.e = "Acquire"
+    /\ Ev.e = "Acquire" /\ Ev.valid = 1              \* aws_ring_buffer_is_valid, the library's own invariant, after every call
     /\ Ev.k <= Len(out)
     /\ LET quiet == out = <<>>                       \* nothing outstanding when the call started
            rest  == SubSeq(out, Ev.k + 1, Len(out))   \* still outstanding when it returned
